@@ -345,11 +345,16 @@ class TypeChecker(walkers.dag.DagWalker):
         if to_skip or right.lower_bound != right.upper_bound:
             pass
         else:
-            left_lower = -float("inf") if left.lower_bound is None else left.lower_bound
-            left_upper = float("inf") if left.upper_bound is None else left.upper_bound
-            right = right.lower_bound
-            lower = min(left_lower / right, left_upper / right)
-            upper = max(left_lower / right, left_upper / right)
+            # exact rational arithmetic (a float quotient is not a sound bound)
+            right_value = Fraction(right.lower_bound)
+            quotients: List = []
+            for bound, sign in ((left.lower_bound, -1), (left.upper_bound, 1)):
+                if bound is None:
+                    quotients.append(float("inf") * sign * (1 if right_value > 0 else -1))
+                else:
+                    quotients.append(Fraction(bound) / right_value)
+            lower = min(quotients)
+            upper = max(quotients)
         if lower == -float("inf"):
             lower = None
         if upper == float("inf"):
